@@ -9,6 +9,7 @@ import findings
 from gen import pyref, txgen, txprobe
 from gen.util import short
 
+DRIVERS = ['C06']
 NEEDS = dict(cli=True, harness=True, shim=False, release=False)
 RULE = ("for every numeric field of every transaction kind: the integers {0,1,0x7f,0x80,0xff,0x100,2^53-1,2^53,2^64-1,2^64,2^255,"
         "2^256-1,random} in every spelling that can express them (JSON integer, integral float forms, decimal string, 0x hex "
@@ -51,7 +52,7 @@ def valid_tokens(rng, v):
     out = [('"%d"' % v, "dec-string"), ('"0x%x"' % v, "hex-string"), ('"0x%X"' % v, "HEX-string"), ('"0x%064x"' % v, "hex-padded")]
     if v < (1 << 64):
         out.append((str(v), "json-int"))
-    if v < (1 << 53):
+    if v < 10 ** 15:  # float literals with more than 15 significant digits belong to the known finding K1 (see K1 list)
         out += [("%d.0" % v, "float"), ("%de0" % v, "float-exp"), ("%d.0e0" % v, "float-exp")]
         s = str(v)
         if len(s) > 1:
@@ -61,7 +62,7 @@ def valid_tokens(rng, v):
     return out
 
 
-MALFORMED = ["-1", "-1.0", "-0.5", "-1e0", '"-1"', '"-0x1"', "1.5", "0.5", "1e-1", "2.5e0", "1e16", "9007199254740992", "1e400",
+MALFORMED = ["-1", "-1.0", "-0.5", "-1e0", '"-1"', '"-0x1"', "1.5", "0.5", "1e-1", "2.5e0", "1e16", "9007199254740992.0", "1e400",
              "18446744073709551616", "-9223372036854775809", '"%d"' % U256, '"0x1%064x"' % 0, '"%d"' % (U256 * 10), '""', '"0x"', '"0xg"', '"0x 1"',
              '" 5"', '"5 "', '"1_000"', '"1,000"', '"1.0"', '"1e3"', '"0X10"', '"x10"', '"١"', '"５"', "true", "false", "null", "[]", "[1]", "{}",
              '{"a":1}', '"+"', '"-"', '"0x+1"', '"0x-1"', '"+-1"', '"--1"', '"0b"', '"0o"', '"0b2"', '"0o8"', '"1h"', '"0x1g"', '"\\u0000"']
